@@ -31,6 +31,7 @@ var knownExclusions = map[string]string{
 	"C01/runtime-panic:split-over-disabled-call-output":   "split-over-disabled-call-output",
 	"C01/typed-map-to-untyped-map-projection-null":        "typed-map-to-untyped-map",
 	"C16/struct-in-typed-map-position-in-fork-invocation": "struct-to-typed-map",
+	"C01/fork-of-twin-map-call-not-matched":               "twin-instance-feeds-split",
 }
 
 func semCfg() *mrogen.ProgCfg {
